@@ -29,8 +29,8 @@ package types
 // what the derivations need, to keep their proof contexts small)
 //@?   ensures[C14] p != nil ==> forall k string :: has(p.Services, k) ==> result.Services[k].Name == p.Services[k].Name && len(result.Services[k].Profiles) == len(p.Services[k].Profiles) && (forall d string :: has(result.Services[k].DependsOn, d) <==> has(p.Services[k].DependsOn, d))   // undischarged on the reference tree: not claimed
 //@?   ensures[C14] p != nil ==> forall k string :: has(p.DisabledServices, k) ==> result.DisabledServices[k].Name == p.DisabledServices[k].Name && len(result.DisabledServices[k].Profiles) == len(p.DisabledServices[k].Profiles) && (forall d string :: has(result.DisabledServices[k].DependsOn, d) <==> has(p.DisabledServices[k].DependsOn, d))   // undischarged on the reference tree: not claimed
-//@?   ensures[C14] p != nil ==> forall k string :: has(result.Services, k) ==> mapsFresh(result.Services[k])   // undischarged on the reference tree: not claimed
-//@?   ensures[C14] p != nil ==> forall k string :: has(result.DisabledServices, k) ==> mapsFresh(result.DisabledServices[k])   // undischarged on the reference tree: not claimed
+//@   ensures[C14] p != nil ==> forall k string :: has(result.Services, k) ==> mapsFresh(result.Services[k])
+//@   ensures[C14] p != nil ==> forall k string :: has(result.DisabledServices, k) ==> mapsFresh(result.DisabledServices[k])
 //@?   ensures[C14,C20] p != nil ==> forall k string :: has(p.Secrets, k) ==> copyOf_SecretConfig(result.Secrets[k], p.Secrets[k])   // undischarged on the reference tree: not claimed
 
 //@ func (*ServiceConfig).deepCopy
@@ -201,8 +201,8 @@ package types
 //@   ensures[C14] result != nil && fresh(result)
 //@   ensures[C14] (result.Services == nil <==> p.Services == nil) && (result.Services != nil ==> fresh(result.Services))
 //@   ensures[C14] result.DisabledServices == nil || fresh(result.DisabledServices)
-//@?   ensures[C14] forall k string :: has(result.Services, k) ==> mapsFresh(result.Services[k])   // undischarged on the reference tree: not claimed
-//@?   ensures[C14] forall k string :: has(result.DisabledServices, k) ==> mapsFresh(result.DisabledServices[k])   // undischarged on the reference tree: not claimed
+//@    ensures[C14] forall k string :: has(result.Services, k) ==> mapsFresh(result.Services[k])
+//@    ensures[C14] forall k string :: has(result.DisabledServices, k) ==> mapsFresh(result.DisabledServices[k])
 //@   ensures[C14] result.Name == p.Name && result.WorkingDir == p.WorkingDir
 //@?   ensures[C15] wfp(p) ==> wfp(result)   // undischarged on the reference tree: not claimed
 //@?   ensures[C15] forall k string :: (has(result.Services, k) || has(result.DisabledServices, k)) <==> (has(p.Services, k) || has(p.DisabledServices, k))   // undischarged on the reference tree: not claimed
@@ -217,22 +217,24 @@ package types
 //@?  ensures[C15] forall k string :: has(p.Services, k) && !has(result.Services, k) ==> exists i int :: 0 <= i && i < len(names) && names[i] == k
 //@   loop 1
 //@     invariant -1 <= rangeindex && rangeindex < len(names)
-//@?     invariant newProject != nil && fresh(newProject) && newProject.Services != newProject.DisabledServices   // undischarged on the reference tree: not claimed
+//@      invariant newProject != nil && fresh(newProject)
+//@?      invariant newProject.Services == nil || newProject.Services != newProject.DisabledServices   // undischarged (a map just made is not known to differ from a map loaded from a field): not claimed
 //@     invariant newProject.DisabledServices != nil && fresh(newProject.DisabledServices) && (newProject.Services == nil <==> p.Services == nil) && (newProject.Services != nil ==> fresh(newProject.Services))
 //@     invariant newProject.Name == p.Name && newProject.WorkingDir == p.WorkingDir
-//@?     invariant forall k string :: has(newProject.Services, k) ==> mapsFresh(newProject.Services[k])   // undischarged on the reference tree: not claimed
-//@?     invariant forall k string :: has(newProject.DisabledServices, k) ==> mapsFresh(newProject.DisabledServices[k])   // undischarged on the reference tree: not claimed
+//@      invariant forall k string :: has(newProject.Services, k) ==> mapsFresh(newProject.Services[k])
+//@      invariant forall k string :: has(newProject.DisabledServices, k) ==> mapsFresh(newProject.DisabledServices[k])
 //@?     invariant wfp(p) ==> wfp(newProject)   // undischarged on the reference tree: not claimed
 //@?     invariant forall k string :: (has(newProject.Services, k) || has(newProject.DisabledServices, k)) <==> (has(p.Services, k) || has(p.DisabledServices, k))   // undischarged on the reference tree: not claimed
 //@?     invariant forall k string :: has(newProject.Services, k) ==> has(p.Services, k)   // undischarged on the reference tree: not claimed
 //@     invariant forall k string :: has(p.DisabledServices, k) ==> has(newProject.DisabledServices, k)
 //@     invariant forall k string, d string :: has(newProject.Services, k) && has(newProject.Services[k].DependsOn, d) ==> !(has(p.Services, d) && !has(newProject.Services, d))
 //@   loop 2
-//@?     invariant newProject != nil && fresh(newProject) && newProject.Services != newProject.DisabledServices   // undischarged on the reference tree: not claimed
+//@      invariant newProject != nil && fresh(newProject)
+//@?      invariant newProject.Services == nil || newProject.Services != newProject.DisabledServices   // undischarged (a map just made is not known to differ from a map loaded from a field): not claimed
 //@     invariant newProject.DisabledServices != nil && fresh(newProject.DisabledServices) && (newProject.Services == nil <==> p.Services == nil) && (newProject.Services != nil ==> fresh(newProject.Services))
 //@     invariant newProject.Name == p.Name && newProject.WorkingDir == p.WorkingDir
-//@?     invariant forall k string :: has(newProject.Services, k) ==> mapsFresh(newProject.Services[k])   // undischarged on the reference tree: not claimed
-//@?     invariant forall k string :: has(newProject.DisabledServices, k) ==> mapsFresh(newProject.DisabledServices[k])   // undischarged on the reference tree: not claimed
+//@      invariant forall k string :: has(newProject.Services, k) ==> mapsFresh(newProject.Services[k])
+//@      invariant forall k string :: has(newProject.DisabledServices, k) ==> mapsFresh(newProject.DisabledServices[k])
 //@?     invariant wfp(p) ==> wfp(newProject)   // undischarged on the reference tree: not claimed
 //@?     invariant forall k string :: (has(newProject.Services, k) || has(newProject.DisabledServices, k)) <==> (has(p.Services, k) || has(p.DisabledServices, k))   // undischarged on the reference tree: not claimed
 //@?     invariant forall k string :: has(newProject.Services, k) ==> has(p.Services, k)   // undischarged on the reference tree: not claimed
@@ -516,9 +518,12 @@ package types
 //@   ensures[C14] forall k string :: has(src, k) ==> has(dst, k)
 //@   ensures[C14] forall k string :: !has(src, k) ==> (has(dst, k) <==> old(has(dst, k)))
 //@?   ensures[C14] forall k string :: has(src, k) ==> copyOf_ServiceConfig(dst[k], src[k])   // undischarged on the reference tree: not claimed
+// the slim ownership statement the derivations need: no container of a copied service existed before the call
+//@   ensures[C14] forall k string :: has(src, k) ==> mapsFresh(dst[k])
 //@   loop 1
 //@     invariant forall k string :: seen(k) ==> has(src, k) && has(dst, k)
 //@     invariant forall k string :: !seen(k) ==> (has(dst, k) <==> old(has(dst, k)))
+//@     invariant forall k string :: seen(k) ==> mapsFresh(dst[k])
 //@?     invariant forall k string :: seen(k) ==> copyOf_ServiceConfig(dst[k], src[k])   // undischarged on the reference tree: not claimed
 
 //@ func deriveDeepCopy$1
@@ -526,6 +531,7 @@ package types
 //@   requires dst != nil
 //@   assigns dst.*
 //@   ensures[C14] has(dst, src_key)
+//@   ensures[C14] mapsFresh(dst[src_key])
 //@   ensures[C14] forall k string :: k != src_key ==> (has(dst, k) <==> old(has(dst, k))) && dst[k] == old(dst[k])
 //@   ensures[C14] dst[src_key].Name == src_value.Name
 //@   ensures[C14] (dst[src_key].Profiles == nil <==> src_value.Profiles == nil) && (src_value.Profiles != nil ==> fresh(dst[src_key].Profiles)) && len(dst[src_key].Profiles) == len(src_value.Profiles)
@@ -672,6 +678,7 @@ package types
 //@   ensures[C14] (dst.Services == nil <==> src.Services == nil) && (src.Services != nil ==> fresh(dst.Services))
 //@   ensures[C14] (forall kk string :: has(dst.Services, kk) <==> has(src.Services, kk))
 //@?   ensures[C14] (forall ee string :: has(src.Services, ee) ==> copyOf_ServiceConfig(dst.Services[ee], src.Services[ee]))   // undischarged on the reference tree: not claimed
+//@   ensures[C14] forall ee string :: has(dst.Services, ee) ==> mapsFresh(dst.Services[ee])
 //@   ensures[C14] (dst.Networks == nil <==> src.Networks == nil) && (src.Networks != nil ==> fresh(dst.Networks))
 //@   ensures[C14] (forall kk string :: has(dst.Networks, kk) <==> has(src.Networks, kk))
 //@?   ensures[C14] (forall ee string :: has(src.Networks, ee) ==> copyOf_NetworkConfig(dst.Networks[ee], src.Networks[ee]))   // undischarged on the reference tree: not claimed
@@ -694,6 +701,7 @@ package types
 //@   ensures[C14] (dst.DisabledServices == nil <==> src.DisabledServices == nil) && (src.DisabledServices != nil ==> fresh(dst.DisabledServices))
 //@   ensures[C14] (forall kk string :: has(dst.DisabledServices, kk) <==> has(src.DisabledServices, kk))
 //@?   ensures[C14] (forall ee string :: has(src.DisabledServices, ee) ==> copyOf_ServiceConfig(dst.DisabledServices[ee], src.DisabledServices[ee]))   // undischarged on the reference tree: not claimed
+//@   ensures[C14] forall ee string :: has(dst.DisabledServices, ee) ==> mapsFresh(dst.DisabledServices[ee])
 //@   ensures[C14] (dst.Profiles == nil <==> src.Profiles == nil) && (src.Profiles != nil ==> fresh(dst.Profiles)) && len(dst.Profiles) == len(src.Profiles)
 //@   ensures[C14] dst.Services == nil || dst.Services != dst.DisabledServices
 
